@@ -265,6 +265,11 @@ let run_case (x : sx) : Stdlib.String.t =
          | ParseOk t ->
              Buffer.add_string b "\tP=ok";
              if not (wf_node t) then Buffer.add_string b "\tWF=0";
+             if not (acc_clean t) then Buffer.add_string b "\tWF=0";
+             (if cfg.cfg_accessor then
+                match parse_path { cfg with cfg_accessor = false } parse_float regex_ok path with
+                | ParseOk t0 -> if erase t <> t0 then Buffer.add_string b "\tWF=0"
+                | _ -> Buffer.add_string b "\tWF=0");
              if mode = "tree" then Buffer.add_string b ("\tT=" ^ render_node t);
              let st = ref st_init in
              List.iteri (fun i d ->
